@@ -27,7 +27,7 @@ def compare(name, A, B, hyps, fmap, symbols, replay=None, posmap=None):
     for pa in Ar:
         matched = False
         for pb in Br:
-            if not smt.feasible(list(hyps) + list(pa.pc) + list(pb.pc)): continue
+            if not smt.feasible(list(hyps) + list(pa.pc) + list(pb.pc), 12000): continue      # generous budget: the set of pairs must not depend on machine load
             matched = True
             h = list(hyps) + list(pa.pc) + list(pb.pc)
             fa = pa.value.fields(); fb = pb.value.fields()
